@@ -254,16 +254,19 @@ def step (_ : Unit) (w : List String) : Unit × String :=
     | _, _ => ((), "bad-op")
   | ["c", "argv", s, t, v] =>
     -- the value passes through `mpt_process_vararg`: `mpt_value_argv` stores the promoted argument back in its
-    -- type (the 'e' case is compiled out there: such values are refused), then `mpt_iterator_consume` reads it
+    -- type (`argvPass` over the generated `argvTable`; no case for 'e': refused), then `mpt_iterator_consume` reads it
     match Ty.ofName s, Ty.ofName t with
     | some src, some tgt =>
       match parseSrc src v with
       | some x =>
         let f (d : Bool) : Res (Option Out × Nat) :=
-          if src = .e then .err .BadType else
-          match valueConvert src tgt x d with
-          | .ok (o, _) => .ok (o, src.code)
-          | r => r
+          match argvPass src x with
+          | .ok x' =>
+            match valueConvert src tgt x' d with
+            | .ok (o, _) => .ok (o, src.code)
+            | r => r
+          | .err e => .err e
+          | .null => .null | .oob => .oob | .fault => .fault
         ((), fmtVal tgt (f true) (f false) ++ " | S " ++ altsVal (expected src tgt x))
       | none => ((), "bad-op")
     | _, _ => ((), "bad-op")
